@@ -502,6 +502,13 @@ class FunctionAnalysis:
                     visit(s.body)
 
         visit(self.node.body)
+        # a memoised GENERATOR hands the same, already consumed iterator to every later caller: the first call's
+        # answer differs from all following ones (value depends on the call history)
+        decos = [ast.unparse(d) for d in self.node.decorator_list]
+        if any("lru_cache" in d or d.endswith("cache") or "cached_property" in d for d in decos):
+            is_gen = any(isinstance(n, (ast.Yield, ast.YieldFrom)) for n in ast.walk(self.node))
+            self.obligations.append(Ob("kind:memoised-value-is-not-a-one-shot-iterator", not is_gen,
+                                       "lru_cache on a generator: later calls get an exhausted iterator" if is_gen else ""))
         known = {k for k, _ in kinds if k not in (None, "?")}
         ok = len(known) <= 1
         self.obligations.append(Ob("kind", ok, "" if ok else f"return kinds differ: {sorted(known)}"))
